@@ -464,3 +464,62 @@ Proof.
   change (f_cas (as_feed_event (cid - 1) (snd (fst d)) (event_of_row (snd d)))) with (r_cas (snd d)).
   destruct (start <=? r_cas (snd d)); cbn [map]; rewrite IH; reflexivity.
 Qed.
+
+(* ------------------------------------------------------------------------------------------ *)
+(* lifting any per-step check that holds between consecutive reachable stores to whole histories *)
+
+Theorem walk_sound_gen (chk : step_chk) :
+  (forall s x o colls keys xn n0 n1, store_ok s -> tables_ok s -> wf_sop o ->
+     let res := sstep s x o in
+     chk (with_next (snap s colls keys xn) n0) x o
+         (mkOstep (sr_resp res) (fevents_of (sr_events res)) (sr_dump res) (with_next (snap (sr_store res) colls keys xn) n1)) = true) ->
+  forall c steps s n, store_ok s -> tables_ok s -> wf_steps steps ->
+  walk chk (with_next (snap s (sc_colls c) (sc_keys c) (sc_xnames c)) n) steps (srun_from s n c steps) = true.
+Proof.
+  intros Hstep c steps. induction steps as [|[x o] r IH]; intros s n Hs Ht Hwf; cbn [srun_from walk]; [reflexivity|].
+  inversion Hwf as [|? ? Hwo Hwr]; subst. cbn [snd] in Hwo. cbv zeta.
+  rewrite (Hstep s x o _ _ _ n _ Hs Ht Hwo). cbn [andb os_snap].
+  apply IH; [apply sstep_ok; assumption | apply sstep_tables_ok; assumption | exact Hwr].
+Qed.
+
+Lemma In_snap_rows s colls keys xn e : In e (sn_rows (snap s colls keys xn)) ->
+  exists cid, coll_id s (fst (fst e)) = Some cid /\ snd e = obs_of cid (snd (fst e)) xn (get_doc s (cid, snd (fst e))).
+Proof.
+  cbn [snap sn_rows]. intros H. apply in_flat_map in H. destruct H as (c' & Hc' & Hin).
+  destruct (coll_id s c') as [cid|] eqn:E; [|destruct Hin].
+  apply in_map_iff in Hin. destruct Hin as (k' & <- & _). exists cid. cbn. auto.
+Qed.
+
+Lemma kv_view_eqb_refl o : kv_view_eqb o o = true.
+Proof.
+  unfold kv_view_eqb. destruct (resp_eq_dec (o_get o) (o_get o)); [|congruence].
+  destruct (resp_eq_dec (o_exp o) (o_exp o)); [|congruence]. destruct (o_exists o); reflexivity.
+Qed.
+
+Lemma kv_view_eqb_refl_obs cid cid' k xn r : kv_view_eqb (obs_of cid k xn r) (obs_of cid' k xn r) = true.
+Proof.
+  unfold kv_view_eqb, obs_of; cbn [o_get o_exp o_exists].
+  repeat match goal with |- context [resp_eq_dec ?a ?a] => destruct (resp_eq_dec a a); [|congruence] end.
+  apply Bool.eqb_reflx.
+Qed.
+
+Lemma others_kept_step s x o colls keys xn n0 n1 : store_ok s -> tables_ok s -> wf_sop o ->
+  let res := sstep s x o in
+  chk_step_others_kept (with_next (snap s colls keys xn) n0) x o
+    (mkOstep (sr_resp res) (fevents_of (sr_events res)) (sr_dump res) (with_next (snap (sr_store res) colls keys xn) n1)) = true.
+Proof.
+  intros Hs Ht Hwf. cbv zeta. destruct o; cbn [chk_step_others_kept]; try reflexivity.
+  cbn [os_snap with_next sn_rows]. apply forallb_forall. intros e He.
+  destruct (sspair_eqb (fst e) (coll, key)) eqn:Eq; [reflexivity|]. cbn [orb].
+  destruct (look (fst e) (sn_rows (snap s colls keys xn))) as [o0|] eqn:El; [|reflexivity].
+  destruct e as [[c' k'] ob]. cbn [fst snd] in *.
+  apply look_snap in El. destruct El as (cid0 & Ec0 & ->).
+  apply In_snap_rows in He. cbn [fst snd] in He. destruct He as (cid' & Ec' & ->).
+  cbn [sstep] in *. destruct (coll_id s coll) as [cid|] eqn:Ec.
+  - rewrite coll_id_kv_on in Ec'. rewrite Ec0 in Ec'. inversion Ec'; subst cid'.
+    rewrite kv_on_frame; [apply kv_view_eqb_refl_obs|].
+    intros E. inversion E; subst. 
+    assert (c' = coll) by (eapply coll_id_inj; eauto; apply Ht). subst.
+    unfold sspair_eqb in Eq. cbn in Eq. rewrite !String.eqb_refl in Eq. discriminate.
+  - cbn [sr_store] in Ec'. rewrite Ec0 in Ec'. inversion Ec'; subst. apply kv_view_eqb_refl_obs.
+Qed.
